@@ -532,6 +532,11 @@ class _Metadata:
         object.__setattr__(self, '_fields', fields)
 
     def __getattr__(self, name):
+        # Only called when the normal lookup fails. Special methods, and our own
+        # storage while an instance is being copied or unpickled (it does not
+        # exist yet then), must not be looked up in the field dict.
+        if name == '_fields' or (name.startswith('__') and name.endswith('__')):
+            raise AttributeError(name)
         return self._fields.get(name)
 
     def __setattr__(self, name, value):
